@@ -174,7 +174,7 @@ func propC16(c *Ctx) {
 	}
 
 	// ---- line-table -----------------------------------------------------------------------------------
-	rt := c.Rule("line-table", "every function of the scanner that advances the read offset also records line starts (AddLine): a second way of stepping over characters would shift every later line number", 1)
+	rt := c.Rule("line-table", "every function of the scanner that moves the read offset by a non-constant displacement also records line starts (AddLine): a second way of stepping over characters (a fast path that jumps over a comment ...) would shift every later line number; restoring a saved position (constant displacement) is exempt", 1)
 	_, fRO := l.structField(parserPath, "Scanner", "readOffset")
 	if c.Anchor(rt, "parser.Scanner.readOffset", fRO >= 0) {
 		n := 0
@@ -190,13 +190,14 @@ func propC16(c *Ctx) {
 				if !ok {
 					return
 				}
-				// increment: value = load(same field) + something
-				if bo, ok := st.Val.(*ssa.BinOp); ok && bo.Op == token.ADD {
-					if u, ok := bo.X.(*ssa.UnOp); ok {
-						if fa2, ok := isFieldAddrOf(u.X, parserPath, "Scanner", fRO); ok && fa2.X == fa.X {
-							advances = true
-							pos = st.Pos()
-						}
+				_ = fa
+				// a move by a non-constant displacement (forward step): value = x + d with d not a constant
+				if bo, ok := st.Val.(*ssa.BinOp); ok && (bo.Op == token.ADD || bo.Op == token.SUB) {
+					_, kx := bo.X.(*ssa.Const)
+					_, ky := bo.Y.(*ssa.Const)
+					if !kx && !ky {
+						advances = true
+						pos = st.Pos()
 					}
 				}
 			})
@@ -212,7 +213,7 @@ func propC16(c *Ctx) {
 					}
 				}
 			})
-			c.Check(rt, fnName(fn)+" | readOffset += w", l.Pos(pos), adds, "the advancing function records line starts", "the scanner advances its read offset in a function that never calls AddLine: newlines stepped over there are missing from the line table")
+			c.Check(rt, fnName(fn)+" | readOffset += w", l.Pos(pos), adds, "the advancing function records line starts", "the scanner moves its read offset by a computed distance in a function that never calls AddLine: newlines stepped over there are missing from the line table and every later position is reported too many lines up")
 		}
 		if n == 0 {
 			c.Und(rt, "scanner advance", "-", "no function increments Scanner.readOffset: anchor lost")
